@@ -235,7 +235,7 @@ func (e *Env) asSeq(c *CV) *CV {
 		}
 		return &CV{K: CSeq, Row: e.st.row(k, v.Ref), Off: v.Off, Len: v.Len}
 	case VString:
-		return &CV{K: CSeq, Row: e.st.row("str8", v.Ref), Off: v.Off, Len: v.Len}
+		return &CV{K: CSeq, Row: strRowOf(e.st, v), Off: v.Off, Len: v.Len}
 	case VPtr:
 		if p, ok := v.T.Underlying().(*types.Pointer); ok {
 			if a, ok := p.Elem().Underlying().(*types.Array); ok {
@@ -440,7 +440,7 @@ func (e *Env) index(a, i *CV) *CV {
 		r := e.st.load(el, v.Ref, Add(v.Off, Mul(IntLit(sz), idx)))
 		return cvOfVal(r)
 	case VString:
-		return &CV{K: CBV, T: e.st.loadCell("str8", v.Ref, Add(v.Off, idx))}
+		return &CV{K: CBV, T: Select(strRowOf(e.st, v), Add(v.Off, idx))}
 	case VPtr:
 		if p, ok := v.T.Underlying().(*types.Pointer); ok {
 			if ar, ok := p.Elem().Underlying().(*types.Array); ok {
@@ -770,7 +770,7 @@ func (e *Env) valEqual(a, b *Val) *Term {
 	case VIface:
 		return And(Eq(a.S, b.S), Eq(a.Ref, b.Ref))
 	case VString:
-		return e.seqEqual(e.st.row("str8", a.Ref), a.Off, a.Len, e.st.row("str8", b.Ref), b.Off, b.Len)
+		return e.seqEqual(strRowOf(e.st, a), a.Off, a.Len, strRowOf(e.st, b), b.Off, b.Len)
 	case VSlice:
 		// contract-level meaning: same contents
 		el := a.T.Underlying().(*types.Slice).Elem()
@@ -952,4 +952,16 @@ func (e *Env) evalBool(x Expr) (*Term, error) {
 		return nil, fmt.Errorf("expression %s is not boolean", exprString(x))
 	}
 	return cv.T, nil
+}
+
+// strRowOf: the byte row of a string value; string constants have fixed contents.
+func strRowOf(st *State, s *Val) *Term {
+	if id, ok := s.Ref.Int64(); ok && id < 0 && theV != nil {
+		for str, sid := range theV.strConsts {
+			if sid == id {
+				return strConstRow(str)
+			}
+		}
+	}
+	return st.row("str8", s.Ref)
 }
